@@ -63,7 +63,8 @@ CHECKS = {
              "two concurrent stops. Oracles: ASan+UBSan and TSan with reports fatal (any report with an iora frame is a violation), a per-call return deadline measured from the moment "
              "teardown began (15 s against 60 s call timeouts, isolated re-run), a callback fence stamped when stop() returned, and clean failure of every operation issued afterwards.",
         note="Compiled with -fno-access-control only to read the parked-caller counters under iora's own lock (observation of which interleaving class was hit). Absence of races holds for the interleavings TSan saw. "
-             "Absence of races holds for the interleavings TSan saw.",
+             "Operations issued from inside callbacks fired by a teardown drain, connectSync bursts against slow onClose handlers, connectViaListener around the teardown and datagrams after every restart are part of the storms. "
+             "One open known finding (a setReadMode flush past its closed-check enters onData with one chunk after stop() returned; same window as the C02 entry).",
         technique="runtime monitoring: sanitizers + call-return deadlines + callback fence over teardown storms, schedule perturbation"),
     "C11": dict(
         level="fault_enumeration",
@@ -91,11 +92,11 @@ CHECKS = {
         technique="runtime monitoring: tagged datagrams logged at raw sockets vs transport events, offline history checker, EAGAIN injection, ASan/TSan"),
     "C07": dict(
         level="fault_enumeration",
-        text="A pruned 601-cell configuration matrix (verify on/off x trust anchor x server certificate x client certificate x protocol ceiling x peer kind x entry point "
-             "{Transport client/server, HttpClient, HttpServer} x target kind x lifecycle (fresh, second life, retried start) x HttpClient request sequences (http-then-https and https-then-http on one host:port, setTlsConfig between requests)) is executed for real against an independent libssl / plaintext / garbage peer through a "
+        text="A pruned 754-cell configuration matrix (verify on/off x trust anchor x server certificate x client certificate x protocol ceiling x peer kind x entry point "
+             "{Transport client/server, HttpClient, HttpServer} x target kind x lifecycle (fresh, second life, retried start) x HttpClient request sequences (http-then-https and https-then-http on one host:port, setTlsConfig between requests) x name-matching family (exact / wildcard / partial / non-leftmost wildcard / IP SAN / CN-only certificates against 14 target spellings) x shape of iora's own certificate file (leaf, fullchain, leaf+unrelated CA, CA first)) is executed for real against an independent libssl / plaintext / garbage peer through a "
              "recording relay; the expected outcome of each cell (must-reject / must-accept / either) is computed from its coordinates alone; admission is decided by "
              "application data exchanged, the relay scans for clear-text tokens, the peer reports the negotiated version. Quick runs a seeded covering subset (every coordinate "
-             "value, every reject class, the floor cells) on plain+asan; thorough runs the whole matrix on plain+asan+tsan (exhaustive over the matrix).",
+             "value, every reject class, all 36 TLS-floor classes as required observations) on plain+asan; thorough runs the whole matrix on plain+asan+tsan (exhaustive over the matrix).",
         note="System OpenSSL 3.0.x; TLS 1.0/1.1 are only negotiable at security level 0, so low-ceiling cells run at @SECLEVEL=0 and reference libssl-vs-libssl cells must prove "
              "negotiability for the floor cells to count. Revocation, name constraints, cipher strength are out of scope. "
              "One open known finding (HttpClient::setTlsConfig() after the first request is ignored; seq-settls-* cells only).",
